@@ -31,16 +31,52 @@ def reset_memos():
         pass
 
 
+_CARDLOG = {}  # "T.<field>" / "O.<field>" -> set of value labels seen by this worker since the last pop (configuration-alphabet coverage)
+
+
+def _label(v):
+    if isinstance(v, np.ndarray):
+        return f"ndarray[{v.size}]#{hashlib.sha1(repr(v.tolist()).encode()).hexdigest()[:6]}"
+    if isinstance(v, (list, tuple)):
+        return f"list[{len(v)}]#{hashlib.sha1(repr(list(v)).encode()).hexdigest()[:6]}"
+    if isinstance(v, dict):
+        return "dict:" + ",".join(f"{k}={v[k]!r}" for k in sorted(v))[:60]
+    return repr(v)
+
+
+def log_cards(theory=None, obs=None):
+    """record which values every card field takes in the runs a check executes (read-only)."""
+    for pre, card in (("T.", theory), ("O.", obs)):
+        if not isinstance(card, dict):
+            continue
+        for k, v in card.items():
+            if k == "observables":
+                if isinstance(v, dict):
+                    for name, kins in v.items():
+                        _CARDLOG.setdefault("O.observables", set()).add(str(name))
+                        _CARDLOG.setdefault("O.points_per_observable", set()).add(repr(len(kins)) if hasattr(kins, "__len__") else "?")
+                continue
+            _CARDLOG.setdefault(pre + str(k), set()).add(_label(v))
+
+
+def pop_cardlog():
+    out = {k: sorted(v) for k, v in _CARDLOG.items()}
+    _CARDLOG.clear()
+    return out
+
+
 def run(cell, obs_map=None):
     """Run yadism for a cell; returns the Output."""
     t = cards.theory(cell)
     o = cards.observables(cell, obs_map)
+    log_cards(t, o)
     return yadism.run_yadism(t, o)
 
 
 def runner(cell, obs_map=None):
     t = cards.theory(cell)
     o = cards.observables(cell, obs_map)
+    log_cards(t, o)
     return yadism.Runner(t, o)
 
 
